@@ -277,3 +277,6 @@ def run(ctx):
 
     _c10n.local_numbering_tables(ctx)  # (tools/wiring.py) the BC / RBC coefficients and the dual-space tables on the barycentric grid are anchored here too
     _bcf.fan_bundles(ctx)
+    from . import c11 as _c11e
+
+    _c11e.edge_convention(ctx)  # (tools/wiring.py) the RWG / SNC evaluators and the SNC surface curl read edge lengths by the local edge convention
